@@ -158,8 +158,14 @@ func OracleC01(h *History, out *sim.Outcome) *simrt.Violation {
 		}
 		k := ke{q.KeyIndex, q.Slot / SlotsPerEpoch}
 		if f, seen := first[k]; seen {
-			return env.Viol("C01/double-sign-request", "key %d (validator %d) epoch %d: asked to sign in run %d (slot %d, step %d, %s) and again in run %d (slot %d, step %d, %s); runs: %s",
-				q.KeyIndex, pl.Vals[q.val].Index, k.epoch, f.run, f.Slot, f.Step, f.Outcome, q.run, q.Slot, q.Step, q.Outcome, h.describeRuns(f.run, q.run))
+			// two duty jobs that overlapped in time and both signed: no sequential order of the
+			// two explains it (C17 reads this marker); one after the other: plain C01
+			overlap := ""
+			if a, b := h.Runs[f.run], h.Runs[q.run]; f.run != q.run && a.CallStep <= endStep(b) && b.CallStep <= endStep(a) {
+				overlap = " " + OverlapMarker
+			}
+			return env.Viol("C01/double-sign-request", "key %d (validator %d) epoch %d: asked to sign in run %d (slot %d, step %d, %s) and again in run %d (slot %d, step %d, %s); runs: %s%s",
+				q.KeyIndex, pl.Vals[q.val].Index, k.epoch, f.run, f.Slot, f.Step, f.Outcome, q.run, q.Slot, q.Step, q.Outcome, h.describeRuns(f.run, q.run), overlap)
 		}
 		first[k] = q
 	}
@@ -459,4 +465,14 @@ func (h *History) dutyString(rp *RunPlan) string {
 		sort.Strings(b)
 	}
 	return strings.Join(b, " ")
+}
+
+// OverlapMarker is appended to a double-sign report when the two duty jobs overlapped in time.
+const OverlapMarker = "[overlapping-runs]"
+
+func endStep(r *RunRec) int {
+	if !r.Returned {
+		return int(^uint(0) >> 1)
+	}
+	return r.RetStep
 }
